@@ -28,10 +28,14 @@ def run(ctx):
     ot = gen_prog.optest_programs(r, ctx.scale(150, 1500))
     bodies = fz + [(p, e) for p, e, _ in ot]
     cases = []     # (p_tt, e_tt, flags, meta)
+    # SHA256_TREE / SECP_OPS change what opcodes 63 / 64 / 65 mean (and cost), so they are fixed BEFORE a guard is
+    # calibrated (a guard calibrated without them is not "exact" any more once they are added); the flags added
+    # afterwards change neither the meaning nor the cost of any operator
     for f0 in (0, FLAG["NEW_COST_MODEL"]):
-        for p, e, meta in gen_prog.guarded_programs(r, bodies, f0, n=ctx.scale(200, 3000)):
-            f = f0 | sum(b for b in (FLAG["ENABLE_GC"], FLAG["MALACHITE"], FLAG["SHA256_TREE"], FLAG["SECP_OPS"], FLAG["LIMIT_SOFTFORK"]) if r.random() < 0.15)
-            cases.append((p, e, f, meta))
+        for sem in (0, 0, 0, 0, FLAG["SHA256_TREE"], FLAG["SECP_OPS"], FLAG["SHA256_TREE"] | FLAG["SECP_OPS"]):
+            for p, e, meta in gen_prog.guarded_programs(r, bodies, f0 | sem, n=max(1, ctx.scale(200, 3000) // 7)):
+                f = f0 | sem | sum(b for b in (FLAG["ENABLE_GC"], FLAG["MALACHITE"], FLAG["LIMIT_SOFTFORK"]) if r.random() < 0.15)
+                cases.append((p, e, f, meta))
     outs = vlib.run_impl("run", [run_line(p, e, f=f) for p, e, f, _ in cases])
     hide = vlib.run_impl("run", [run_line(p, e, f=f, d="hide") for p, e, f, _ in cases])
     for (p, e, f, meta), o, oh in zip(cases, outs, hide):
